@@ -488,7 +488,7 @@ func (e *Env) closureFact(v Val, guard string) {
 		u.assume(body)
 		return
 	}
-	if patOK {
+	if patOK && !strings.Contains(t, "(ite ") {
 		u.assume(fmt.Sprintf("(forall (%s) (! %s :pattern (%s)))", strings.Join(binds, " "), body, t))
 	} else {
 		u.assume(fmt.Sprintf("(forall (%s) %s)", strings.Join(binds, " "), body))
